@@ -243,8 +243,8 @@ func (r *committedReader) Read(ctx context.Context, p []byte) (n int, err error)
 			verifGate("reader.after_wait_hw")
 			hw = r.cl.HighWatermark()
 		}
-		r.hw = hw
 		verifGate("reader.before_resync")
+		r.hw = hw
 		segments = r.cl.Segments()
 		hwIdx, hwPos, err := getHWPos(segments, r.hw)
 		if err != nil {
@@ -316,8 +316,8 @@ LOOP:
 			verifGate("reader.after_wait_hw")
 			hw = r.cl.HighWatermark()
 		}
-		r.hw = hw
 		verifGate("reader.before_resync")
+		r.hw = hw
 		segments = r.cl.Segments()
 		hwIdx, hwPos, err := getHWPos(segments, r.hw)
 		if err != nil {
